@@ -191,8 +191,8 @@ def ser_problems(r):
                     out.append(("C07:ser:digest:output-of-node-k-differs-from-input-of-node-k+1", kind))
                 if nx.get("pre_context", {}).get("sha256") != cpost:
                     out.append(("C07:ser:digest:post_context-of-node-k-differs-from-pre_context-of-node-k+1", kind))
-            for tag, dig, val in (("d", din, e["data_pre"]), ("d", dout, e["data_post"])):
-                by_content.setdefault((tag, _raw_data_key(val)), set()).add(dig)
+            for tag, dig, key in (("d", din, e.get("data_pre_key") or _raw_data_key(e["data_pre"])), ("d", dout, e.get("data_post_key") or _raw_data_key(e["data_post"]))):
+                by_content.setdefault((tag, key), set()).add(dig)       # (content keys taken when the node started / returned)
             for tag, dig, val in (("c", cpre, pre), ("c", cpost, post)):
                 try:
                     key = _raw_ctx_key(val)
@@ -281,7 +281,7 @@ def run(ck):
     runs = sers_checked = 0
     placements = collections.Counter()
     for i, c in enumerate(cases):
-        todo = tl.DETAILS if (thorough or i < len(corpus)) else [tl.DETAILS[i % 4]]
+        todo = tl.DETAILS if (thorough or i < len(corpus) or c.get("all_details")) else [tl.DETAILS[i % 4]]
         for detail in todo:
             mode = tl.MODES[(i + len(detail)) % 2]
             r = tl.run_traced(c["nodes"], c["data0"], c["ctx0"], detail=detail, mode=mode)
